@@ -6,3 +6,4 @@ from . import lemmas
 from . import message
 from . import absolute
 from . import sequence
+from . import tokeniser
